@@ -20,7 +20,13 @@ Domain : v1 configuration with 0-2 input rails, 0-2 output rails (all of the blo
          conversation or belonging to another one, and the way the calls are awaited: each in its own task (`generate`,
          `run_until_complete(generate_async)`) or ALL IN ONE COROUTINE (one asyncio task = one contextvars context, as an
          application's own coroutine or a batch loop awaits `generate_async`).  Only the last call is judged: reply, rail
-         invocations, LLM calls and log are those of THIS call, whatever ran before it.
+         invocations, LLM calls and log are those of THIS call, whatever ran before it;  (3) HOW THE CALLER HANDS OVER THE
+         OPTIONS (`options: Optional[Union[dict, GenerationOptions]]`) - a new dict per call, a new GenerationOptions object
+         per call, or ONE dict / ONE GenerationOptions object that the caller keeps and passes to every call of the case
+         with these options (an earlier call may pass the very options of the judged call; if they take a supplied bot
+         message, that earlier call may have been made WITHOUT one - the caller had no candidate answer yet.  What such a
+         call does is not specified and not judged; the judged call must still run the categories selected in the options
+         the caller passed).
 Oracle : reference table written from docs/user_guides/advanced/generation-options.md and the statement:
            * no rail action of an unselected category is ever invoked; selected input rails run in order on the text
              left by their predecessors until the first reject;
@@ -36,6 +42,7 @@ Not asserted (DESIGN 4/C16 S): retrieval rails running when `retrieval` is selec
          options (documented as unsupported) are not generated.
 """
 import itertools
+import json
 
 from hypothesis import strategies as st
 
@@ -64,20 +71,35 @@ RULE = (
     "row number); (c) family RESULT_SHAPES on the 2+2+1 configuration = how a rejection is signalled: result variable shared by all "
     "rail flows x rejecting action returns None / 0 / '' and own variable per rail x returns False / None (shared + False is every "
     "other table), each x 16 subsets x every effective verdict vector with a reject in a selected category = 780 rows + variants. "
+    "(d) family OPTION_FORMS: every 6th row of (a)-(c) is also judged as the last of 2-3 calls that pass EQUAL options, handed over as ONE "
+    "GenerationOptions object kept by the caller / a new GenerationOptions object per call / ONE dict kept by the caller (2 : 1 : 1), awaited by "
+    "generate / in one task / run_until_complete per call (crossed); if the selection takes a supplied bot message (output without dialog), "
+    "5 of 7 such rows make the first of these calls WITHOUT one (last message = the user's; that call is unspecified and not judged) = 532 rows. "
     "Sampled part: the same row space with Hypothesis-drawn rail "
     "counts (0-2, 0-2, 0-1), per-slot flow sharing, hostile user texts, bot texts, routes, partial-dict spelling, "
     "enable_rails_exceptions, result variable (shared 2/3, own 1/3), value returned by a rejecting rail action (False 1/3, None 1/3, "
-    "0 and '' 1/6 each), 0-2 earlier calls with drawn selections (+ the optional all-rails warm-up call) and the way the calls are "
-    "awaited (generate / run_until_complete(generate_async) per call / all in one task, 1/4 : 1/4 : 1/2). "
+    "0 and '' 1/6 each), 0-2 earlier calls (selection: any subset 1/2, the judged call's own = equal options 1/3, none 1/6; a call whose "
+    "selection takes a bot message leaves it out 1/2) (+ the optional all-rails warm-up call), the way the calls are "
+    "awaited (generate / run_until_complete(generate_async) per call / all in one task, 1/4 : 1/4 : 1/2) and the way the options are handed "
+    "over (new dict per call 1/3, dict kept by the caller 1/6, new GenerationOptions object per call 1/6, one object kept by the caller 1/3). "
     "Non-trivial = subset != all four and (a reject or rewrite among the verdicts of a selected "
     "category, or a selected input/output category without any rail, or one flow that ran in two places); distinct by the whole case."
 )
 ASSUMPTIONS = [
     "the supplied bot message is passed as a last message with role `assistant` (the code path tests/test_generation_options.py uses; the docs say `bot`)",
     "rails option values are booleans / category names only (per-rail name lists are documented as unsupported)",
-    "a bot message is supplied exactly when dialog is unselected and output is selected",
+    "a bot message is supplied exactly when dialog is unselected and output is selected - in the judged call always; an EARLIER call of that "
+    "selection may leave it out (last message = the user's). The statement and the docs say nothing about such a call (probed: its output rails "
+    "run on an undefined $bot_message): it is never judged, whatever it returns; a case in which it raised is skipped like any earlier raise",
+    "options may be passed as a dict or as a GenerationOptions object (signature of generate/generate_async, docs/user_guides/advanced/"
+    "generation-options.md); the options a call runs under are the value of the object the caller passed at the time of the call, so a caller "
+    "that keeps one dict/object and passes it to several calls selects the same categories in each of them (the harness never changes a kept "
+    "object itself; calls share an object only if their options are equal as JSON values)",
     "with dialog selected the reply text itself is asserted only through markers (which text reached the reply), not character by character",
     "a flow listed in several places decides whether it checks $user_message or $bot_message by the documented context variable $triggered_output_rail (docs/user_guides/detailed_logging), as a user-written two-way rail would; the harness attributes its k-th run per direction and call to its k-th listed place in that category (routes with two LLM messages per call are not generated here)",
+    "$triggered_output_rail keeps naming the output rail that blocked (that is its documented use) until output rails run again, also into the next call "
+    "of the conversation: a judged call with input rails selected that follows a call in which an output rail blocked is skipped (counted) when the "
+    "configuration has a flow listed in input AND output - the harness's flow could not tell its direction there",
     "listing one flow in several places is accepted by RailsConfig (probed: no validation error, every occurrence runs)",
     "a rail flow of the library shape `$x = execute a(...)` / `if not $x` / refuse / stop blocks whenever its action's result is falsy: "
     "False, None (an action without return value), 0 and the empty string are all generated as the 'not allowed' answer; "
@@ -314,8 +336,10 @@ BOTS = ["all good", "it's {sunny} $today", "fine: yes", "ok"]
 D_ROUTES = ["llm", "predef", "next_llm", "pl", "act_llm", "next_predef"]
 
 
-def _turn(T, subset, spelling, vin, vout, user_noise, bot_noise, route, empty_bot=False):
-    """One call with a `rails` selection (subset None = a call without the option: all rails); T = its index in the case."""
+def _turn(T, subset, spelling, vin, vout, user_noise, bot_noise, route, empty_bot=False, nobot=False):
+    """One call with a `rails` selection (subset None = a call without the option: all rails); T = its index in the case.
+    nobot (earlier calls only): a call whose selection takes a supplied bot message (output without dialog) is made WITHOUT one -
+    the last message is the user's, as when the caller has no candidate answer yet.  What such a call does is not specified."""
     turn = {
         "user": f"{user_noise} {fakes.mk_user(T)}",
         "route": route,
@@ -328,7 +352,9 @@ def _turn(T, subset, spelling, vin, vout, user_noise, bot_noise, route, empty_bo
         return turn
     subset = [c for c in CATS if c in subset]
     turn["options"]["rails"] = _spell(subset, spelling)
-    if "dialog" not in subset and "output" in subset:
+    if "dialog" not in subset and "output" in subset and nobot:
+        turn["unspecified"] = "output selected without dialog, no bot message supplied"
+    elif "dialog" not in subset and "output" in subset:
         turn["bot"] = f"{fakes.mk_llm(T, SUPPLIED_K)} {bot_noise}"
         if empty_bot:
             # the supplied bot message is the empty string: still a bot message, the selected output rails run on it
@@ -339,10 +365,14 @@ def _turn(T, subset, spelling, vin, vout, user_noise, bot_noise, route, empty_bo
 
 
 def make_case(subset, spelling, n_out, vin, vout, user_noise, bot_noise, route, exc=False, warm=False, empty_bot=False, n_in=2, n_ret=1, flows=None,
-              var=None, block=None, pre=None, new=False, api="sync"):
-    """pre = calls made on the same LLMRails instance before the judged one: [{"subset": [...] | None (all rails, no option),
-    "spelling", "in", "out", "route", "user", "bot", "new": bool}, ...]; "new" on a call (parameter `new` for the judged one)
+              var=None, block=None, pre=None, new=False, api="sync", options_as="dict"):
+    """pre = calls made on the same LLMRails instance before the judged one: [{"subset": [...] | None (all rails, no option)
+    | "same" (selection and spelling of the judged call: the two calls pass EQUAL options), "spelling", "in", "out", "route",
+    "user", "bot", "new": bool, "nobot": bool (see _turn)}, ...]; "new" on a call (parameter `new` for the judged one)
     = the call starts another conversation (its message list does not carry the earlier calls).
+    options_as = how the caller hands the options of every call to generate: "dict" (a new dict per call), "object" (a new
+    GenerationOptions object per call), "dict-reused" / "object-reused" (the caller keeps ONE dict / GenerationOptions object per
+    distinct options value and passes that same object to every call of the case with these options).
     api = "sync" / "async": every call is its own `generate` / `run_until_complete(generate_async)`;
     "task": all calls of the case are awaited one after the other in ONE coroutine (one asyncio task, one contextvars context)."""
     subset = [c for c in CATS if c in subset]
@@ -357,7 +387,9 @@ def make_case(subset, spelling, n_out, vin, vout, user_noise, bot_noise, route, 
                   "options": {"log": {"activated_rails": True}}}]
     for pc in pre:
         t = len(turns)
-        ptn = _turn(t, pc["subset"], pc.get("spelling", "list"), pc["in"], pc["out"], pc.get("user", "hello there"), pc.get("bot", "all good"), pc.get("route", "llm"))
+        same = pc["subset"] == "same"
+        ptn = _turn(t, subset if same else pc["subset"], spelling if same else pc.get("spelling", "list"), pc["in"], pc["out"], pc.get("user", "hello there"),
+                    pc.get("bot", "all good"), pc.get("route", "llm"), nobot=bool(pc.get("nobot")))
         if pc.get("new") and t:
             ptn["new_conversation"] = True
         turns.append(ptn)
@@ -369,7 +401,10 @@ def make_case(subset, spelling, n_out, vin, vout, user_noise, bot_noise, route, 
         # rails of kind "both" hand back the (possibly rewritten) text and refuse on a falsy result - the harness's own rail flows
         # could not tell an accepted empty message from a rejection; the empty-message cases use plain checking rails
         cfg["out"] = ["check"] * n_out
-    return {"config": cfg, "turns": turns, "subset": subset, "spelling": spelling, "api": api}
+    case = {"config": cfg, "turns": turns, "subset": subset, "spelling": spelling, "api": api}
+    if options_as != "dict":
+        case["options_as"] = options_as  # (the key is present only when it differs from the default)
+    return case
 
 
 # (n_in, n_out, n_ret, flows): the rail-count family (every pair of counts that the main table does not have, so that a
@@ -419,6 +454,31 @@ def _pre_calls(n, n_in, n_out):
     return pre
 
 
+OPTION_FORMS = ["object-reused", "object", "dict-reused"]
+
+
+def _same_options_calls(n, n_in, n_out, takes_bot):
+    """One or two earlier calls for table row n that pass the SAME options as the judged call (own verdicts, route, texts - all
+    derived from n).  If the selection takes a supplied bot message, five of seven such rows make the first of these calls without
+    one (the caller has no candidate answer yet: not a specified call, only what it leaves behind matters)."""
+    pre = []
+    k = n // 6
+    for j in range(2 if k % 5 in (1, 3) else 1):
+        m = k + 5 * j + 1
+        vi, vo = _vectors(True, n_in), _vectors(True, n_out)
+        pre.append({
+            "subset": "same",
+            "in": vi[m % len(vi)],
+            "out": vo[(m // 2) % len(vo)],
+            "route": D_ROUTES[m % len(D_ROUTES)],
+            "user": USERS[m % len(USERS)],
+            "bot": BOTS[m % len(BOTS)],
+            "new": bool((m // 2) % 2),
+            "nobot": takes_bot and j == 0 and k % 7 < 5,
+        })
+    return pre
+
+
 def _rows(subset, spelling, n_in, n_out, n_ret, flows, n, var=None, block=None, only_reject=False):
     """The cases of one table row (n = running row number: picks texts/route and the extra variants)."""
     kw = dict(n_in=n_in, n_ret=n_ret, flows=flows, var=var, block=block)
@@ -436,6 +496,13 @@ def _rows(subset, spelling, n_in, n_out, n_ret, flows, n, var=None, block=None, 
                 # the same row as the last of two or three calls that ONE coroutine awaits one after the other
                 yield make_case(subset, spelling, n_out, vin, vout, USERS[n % len(USERS)], BOTS[n % len(BOTS)], D_ROUTES[n % len(D_ROUTES)],
                                 pre=_pre_calls(n, n_in, n_out), new=bool((n // 12) % 2), api="task", **kw)
+            if n % 6 == 4:
+                # the same row as the last of two or three calls with EQUAL options, handed over as GenerationOptions objects / one
+                # object or dict that the caller keeps and passes to each of these calls
+                takes_bot = "dialog" not in subset and "output" in subset
+                yield make_case(subset, spelling, n_out, vin, vout, USERS[n % len(USERS)], BOTS[n % len(BOTS)], D_ROUTES[n % len(D_ROUTES)],
+                                pre=_same_options_calls(n, n_in, n_out, takes_bot), new=bool((n // 6) % 11 % 2), api=("sync", "task", "async")[(n // 24) % 3],
+                                options_as=OPTION_FORMS[(n // 6) % 4 % 3], **kw)  # (moduli 4, 3, 5, 7, 11: the dimensions are crossed)
 
 
 def enumerate_cases(tier):
@@ -463,6 +530,14 @@ def enumerate_cases(tier):
                 n += len(_in_vectors("input" in subset, 2)) * len(_out_vectors("output" in subset, 2))
 
 
+def _pre_subset(draw):
+    """Selection of an earlier call: none (all rails) 1/6, the judged call's own (equal options) 1/3, any subset 1/2."""
+    kind = draw(st.sampled_from(["all", "same", "same", "drawn", "drawn", "drawn"]))
+    if kind == "drawn":
+        return [c for c in CATS if draw(st.booleans())]
+    return None if kind == "all" else "same"
+
+
 @st.composite
 def _case(draw):
     subset = [c for c in CATS if draw(st.booleans())]
@@ -487,7 +562,7 @@ def _case(draw):
     pre = []
     for _ in range(draw(st.sampled_from([0, 0, 1, 1, 2]))):
         pre.append({
-            "subset": draw(st.sampled_from([None, "drawn", "drawn", "drawn", "drawn"])) and [c for c in CATS if draw(st.booleans())],
+            "subset": _pre_subset(draw),
             "spelling": draw(st.sampled_from(["list", "dict", "partial"])),
             "in": [draw(pipeline.st_verdict("both")) for _ in range(n_in)],
             "out": [draw(pipeline.st_verdict("both")) for _ in range(n_out)],
@@ -495,10 +570,12 @@ def _case(draw):
             "user": draw(noise),
             "bot": draw(bot),
             "new": draw(st.booleans()),
+            "nobot": draw(st.booleans()),
         })
     api = draw(st.sampled_from(["sync", "async", "task", "task"]))
+    options_as = draw(st.sampled_from(["dict", "dict", "dict-reused", "object", "object-reused", "object-reused"]))
     return make_case(subset, spelling, n_out, vin, vout, draw(noise), draw(bot), draw(st.sampled_from(D_ROUTES)), n_in=n_in, n_ret=n_ret, flows=flows,
-                     var=var, block=block, pre=pre, new=draw(st.booleans()), api=api, **case_kw)
+                     var=var, block=block, pre=pre, new=draw(st.booleans()), api=api, options_as=options_as, **case_kw)
 
 
 def strategy(tier):
@@ -518,6 +595,14 @@ def _check(case, obs):
             return ok(skip="earlier call raised: " + str(obs.turns[t]["raised"])[:80], labels=["warm-up-raised"])
     sel = set(case["subset"])
     I, D, R, O = ("input" in sel), ("dialog" in sel), ("retrieval" in sel), ("output" in sel)
+    if I and T and any(_places(cfg, lab, "in") and _places(cfg, lab, "out") for lab in _shared_labels(cfg)):
+        # $triggered_output_rail names the output rail that blocked (docs/user_guides/detailed_logging) and keeps that value in the
+        # conversation's context until output rails run again: in a call made after such a block, the harness's two-way flow cannot
+        # tell from it that it is now running as an INPUT rail - the harness could not attribute its runs, so the row is not judged
+        blocked = any(e["cat"] == "out" and e.get("verdict") == "reject" for t in range(T) for e in obs.turns[t]["trace"]) or any(
+            r["type"] == "output" and r["stop"] for t in range(T) for r in (obs.turns[t]["log"] or []))
+        if blocked:
+            return ok(skip="two-way rail flow after a call in which an output rail blocked ($triggered_output_rail still names it)", labels=["two-way-flow-after-an-output-block"])
     what = f"rails={spec['options']['rails']!r} in={spec['in']} out={spec['out']}" + (f" route={spec['route']}" if D else "") + ((" +bot message" if spec["bot"] else " +EMPTY bot message") if spec.get("bot") is not None else "")
     if o["raised"]:
         if pipeline.EVENT_BUDGET in o["raised"]:
@@ -549,6 +634,19 @@ def _check(case, obs):
             labels.append("in-one-task-after-a-call-whose-input/output-rails-ran")
         if any(tn.get("new_conversation") for tn in case["turns"][1:]):
             labels.append("calls-of-several-conversations")
+    form = case.get("options_as") or "dict"
+    labels.append("options-passed-as=" + {"dict": "new-dict-per-call", "object": "new-GenerationOptions-object-per-call", "dict-reused": "dict-kept-by-the-caller",
+                                           "object-reused": "GenerationOptions-object-kept-by-the-caller"}[form])
+    equal = [tn for tn in earlier if _options_key(tn) == _options_key(spec)]
+    if equal:
+        labels.append("after-a-call-with-equal-options")
+        if form.endswith("-reused"):
+            labels.append(f"options-{form.split('-')[0]}-already-used-by-an-earlier-call")
+    unspecified = [tn for tn in earlier if tn.get("unspecified")]
+    if unspecified:
+        labels.append("after-a-call-without-bot-message(output-without-dialog:unspecified,not-judged)")
+        if form.endswith("-reused") and any(tn in unspecified for tn in equal):
+            labels.append(f"options-{form.split('-')[0]}-already-used-by-a-call-without-bot-message")
     labels.append("rail-result-variable=" + ("own" if cfg.get("var") == "own" else "shared"))
     labels.append("reject-returns=" + {"false": "False", "none": "None", "zero": "0", "empty": "empty-string"}[cfg.get("block") or "false"])
     if cfg["exc"]:
@@ -687,17 +785,51 @@ def _check(case, obs):
         labels.append("same-flow-ran-in-input-and-output")
     empty_selected = (I and not cfg["in"]) or (O and not cfg["out"])
     nt = len(sel) < 4 and bool(nt_event or twice or empty_selected)
-    return ok(nt=nt, labels=sorted(set(labels)), view={"rails": spec["options"]["rails"], "in": spec["in"], "out": spec["out"], "user": spec["user"], "bot": spec.get("bot"), "reply": o["reply"], "rail_calls": [e["rail"] for e in trace], "llm_calls": len(o["llm"]), "log": [(r["type"], r["name"], r["stop"]) for r in log]})
+    # (the evidence keeps the 60 most frequent labels only: the shares of the options hand-over dimension are also kept as counters)
+    counters = {lab: 1 for lab in set(labels) if lab.startswith(("options-", "after-a-call-with"))}
+    return ok(nt=nt, labels=sorted(set(labels)), counters=counters, view={"rails": spec["options"]["rails"], "in": spec["in"], "out": spec["out"], "user": spec["user"], "bot": spec.get("bot"), "reply": o["reply"], "rail_calls": [e["rail"] for e in trace], "llm_calls": len(o["llm"]), "log": [(r["type"], r["name"], r["stop"]) for r in log]})
+
+
+def _options_key(turn):
+    return json.dumps(turn.get("options"), sort_keys=True)
+
+
+def _caller_options(case, p):
+    """p._kwargs with the caller's way of handing over the options (case["options_as"]): the shared runner builds a new dict for
+    every call; here the dict becomes a GenerationOptions object ("object*") and/or is kept by the caller and passed again to
+    every later call of the case whose options have the same value ("*-reused": ONE dict / object serves all these calls)."""
+    form = case.get("options_as") or "dict"
+    kept = {}
+    build = p._kwargs
+
+    def kwargs(session, t):
+        kw, user = build(session, t)
+        if "options" in kw:
+            key = _options_key(session.turns[t])
+            if form.endswith("-reused") and key in kept:
+                kw["options"] = kept[key]
+            else:
+                if form.startswith("object"):
+                    from nemoguardrails.rails.llm.options import GenerationOptions
+
+                    kw["options"] = GenerationOptions(**kw["options"])
+                kept[key] = kw["options"]
+        return kw, user
+
+    return kwargs
 
 
 def _run_conversation(case, fresh):
-    """vf.pipeline.run_conversation for the two call schedules the shared runner does not have: api "task" (one coroutine
+    """vf.pipeline.run_conversation for the call schedules the shared runner does not have: api "task" (one coroutine
     awaits every call of the case in turn - one asyncio task, one contextvars context, as an application's own coroutine or
-    a batch loop does) and turns marked "new_conversation" (the call's message list starts afresh: another conversation
-    served by the same LLMRails instance)."""
+    a batch loop does), turns marked "new_conversation" (the call's message list starts afresh: another conversation
+    served by the same LLMRails instance) and options handed over as (reused) objects (see _caller_options)."""
+    p = None
     try:
         p = pipeline.get_pipeline(case["config"], fresh=fresh)
         s = p.new_session(case)
+        if (case.get("options_as") or "dict") != "dict":
+            p._kwargs = _caller_options(case, p)  # (instance attribute in front of the method, removed below)
 
         def begin(t):
             if case["turns"][t].get("new_conversation"):
@@ -722,6 +854,9 @@ def _run_conversation(case, fresh):
     except BaseException:
         pipeline.reset_runtime()
         raise
+    finally:
+        if p is not None:
+            p.__dict__.pop("_kwargs", None)
 
 
 def _run_checked(case):
@@ -737,6 +872,6 @@ def _run_checked(case):
 
 
 def prop(case):
-    if case.get("api") == "task" or any(tn.get("new_conversation") for tn in case["turns"]):
+    if case.get("api") == "task" or any(tn.get("new_conversation") for tn in case["turns"]) or (case.get("options_as") or "dict") != "dict":
         return _run_checked(case)
     return pipeline.run_checked(case, _check)
